@@ -203,6 +203,30 @@ Inductive rstmt :=
 Definition is_param (x : Z) : bool :=
   match map_get (ce_oparams env) x, map_get (ce_iparams env) x with None, None => false | _, _ => true end.
 
+Section RstmtInd.
+Variable P : rstmt -> Prop.
+Hypothesis HCode : forall c, P (RCode c).
+Hypothesis HIf : forall cc t e, Forall P t -> (forall s, e = Some s -> P s) -> P (RIf cc t e).
+Hypothesis HFor : forall cc b, Forall P b -> P (RFor cc b).
+Hypothesis HBreak : P RBreak.
+Hypothesis HBlock : forall l, Forall P l -> P (RBlock l).
+Fixpoint rstmt_ind' (s : rstmt) : P s :=
+  let fix all (l : list rstmt) : Forall P l :=
+      match l with [] => Forall_nil _ | x :: l' => Forall_cons _ (rstmt_ind' x) (all l') end in
+  let opt (o : option rstmt) : forall x, o = Some x -> P x :=
+      match o return forall x, o = Some x -> P x with
+      | Some s0 => fun x H => match H in _ = y return match y with Some x' => P x' | None => True end with eq_refl => rstmt_ind' s0 end
+      | None => fun x H => match H in _ = y return match y with Some x' => P x' | None => True end with eq_refl => Logic.I end
+      end in
+  match s with
+  | RCode c => HCode c
+  | RIf cc t e => HIf cc t e (all t) (opt e)
+  | RFor cc b => HFor cc b (all b)
+  | RBreak => HBreak
+  | RBlock l => HBlock l (all l)
+  end.
+End RstmtInd.
+
 Fixpoint define_vars (lhs : list (Z * ty)) (st : cstate) : cres (cstate * code) :=
   (* lhs is given in reverse source order (the compiler iterates from the last to the first) *)
   match lhs with
